@@ -54,8 +54,13 @@ Space
               tolerance as `value`); a form that raises where the usual form returned is a violation; containers handed over
               (lists, arrays) must be unchanged after the call. Also on the truncated measure (first menu item and every item
               with a truncation form). Keys `C09:argform:...:form=<form>`.
-  ties        every route on the degenerate interval [e, e] for every finite e of E must return 0 (e = 0: only where both
-              sides are integrable at 0)
+  ties        every route on the degenerate interval [e, e] for every finite e of E must return 0 - also [0, 0] of a measure
+              of infinite activity / variation, for every n: an empty interval carries no mass whatever the activity (it is
+              what a one-sided truncation turns every query of the other side into). The two end points are handed over as two
+              objects (`a is b` is not `a == b`), and [0, 0] also in every other way of writing it the route accepts:
+              (-0.0, -0.0), (-0.0, 0.0), (0.0, -0.0), Python / numpy ints, int and float mixed, numpy floats, 0-d arrays, by
+              keyword; lists, tuples, integer arrays and -0.0 arrays for the array form of `mass`. Keys
+              `C09:value:<family>:<route>:degenerate-interval:<failure>:n=<n>:at0|away-from-0`.
   truncations through LevyModel.truncate_levy_measure, two construction modes:
                 inplace   a model built anew (through the same history) is truncated
                 deepcopy  the judged, USED model is deep-copied, the copy truncated and its representation set to TILDE
@@ -64,7 +69,12 @@ Space
               tuple of Python ints / numpy ints (the clamped end points are then integers), tuple of numpy floats (what the
               library passes: grid.truncations[0]), list, float array, integer array; the container handed over must be
               unchanged afterwards. Keys carry `:tform=<form>`.
-              single truncations (-0.5,0.7), (-2,1), (0.1,0.4) [thorough: also (-0.3,2) and (-inf,0.3)] and NESTED ones
+              single truncations (-0.5,0.7), (-2,1), (0.1,0.4) [thorough: also (-0.3,2) and (-inf,0.3)], ONE-SIDED ones ending
+              AT the origin (0,0.7) and (-0.5,0) [thorough: also (0,inf), (-inf,0), (-0.0,2); nested: (-2,1) then (0,0.7);
+              thorough also (-0.5,0) then (-2,1) and (0,0.7) then (-0.5,0) = {0}] - positive / negative jumps only: every query
+              of the other side (the chain intensity mass(-inf,-h/2) + mass(h/2,inf)), of the same side and across is judged;
+              fresh models get both sides in place, one nested and one by copy, models reached through a history one side
+              (alternating along the list; thorough: both) - and NESTED ones
               (truncate_levy_measure applied to an already truncated model; the truncation interval is the intersection):
               inner inside outer, partial overlap, disjoint (empty) [thorough: two more orders].
               quick: fresh models get all singles and nested in place + three by copy; models reached through a history get
@@ -74,7 +84,8 @@ Space
               each (alpha, n) twice: every interval evaluated alone ("fresh"), and with the same interval evaluated for
               another alpha, another n, the same arguments and alpha/2 just before ("interleaved": a remembered result);
               fresh pass also n in {8, 13} and the argument forms of the helper (usual: keywords, Python floats): end points as
-              ints / numpy ints / mixed / numpy floats / 0-d arrays / -0.0, positional call, integer alpha as int, n as numpy int
+              ints / numpy ints / mixed / numpy floats / 0-d arrays / -0.0, positional call, integer alpha as int, n as numpy int;
+              every pass also the degenerate intervals [e, e] (two objects; e finite, 0 also written -0.0): exactly 0
 
 Oracle
   value       quadrature of x^n nu(x) with nu = the model's own __call__ (mc.oracle.integrate_density) on the elementary
@@ -87,7 +98,12 @@ Oracle
   truncated   density of the truncated measure is exactly 0 at probe points outside [l,r] and equals the base density inside;
               integral of the truncated measure over [a,b] = the library's own integral of the base measure (the judged
               model of the same history, evaluated once per route and intersection) over [a,b] n [l,r] (0 when the
-              intersection is empty or a point; [l,r] = intersection of all truncations applied). Together with `value` on
+              intersection is empty or a point, ALSO when the query is clamped to the point interval at the origin of a
+              measure that is not integrable there; [l,r] = intersection of all truncations applied). Where the truncated
+              route fails on an empty intersection exactly as the base route fails on the point interval the clipping maps
+              to (same exception; same NaN / inf on [0, 0]) the failure is the base formula's: it is reported once per
+              family and route by `ties`, and counted here (`truncated_base_route_raises_too`,
+              `truncated_base_route_not_finite_at_origin_too`). Together with `value` on
               the base measure this is the statement; comparing with the base route isolates the clipping logic from the
               formulas.
   tools       mpmath incomplete gamma function at 30 digits
@@ -125,15 +141,15 @@ Undamped CGMY (g == 0 or m == 0, spec flag "boundary"; accepted by the `positive
     * a route that silently returns NaN where the integral is finite (mass for y = 0 and y = 1, first moment for y = 1:
       exp1(0) - exp1(0), 0 * exp1(0)) violates the statement: key
       `C09:value:cgmy:<route>:nan-on-an-undamped-side:<g=0|m=0|g=m=0>:<y class>:<bounded|unbounded>[:via=...]` - an OPEN known
-      finding (pattern `C09:value:cgmy:*:nan-on-an-undamped-side:*`); the degenerate intervals [e, e] of that side too;
+      finding (pattern `C09:value:cgmy:*:nan-on-an-undamped-side:*`); the degenerate intervals [e, e] of that side too
+      (but [0, 0] where |x|^n nu is not integrable at 0 has the ordinary `degenerate-interval` key: that NaN is not a matter
+      of damping);
     * every finite value is judged like any other, with the ordinary keys `C09:value:cgmy-<y class>:...` (the second moment on
       bounded intervals, the mass for y not in {0, 1}, the first moment for y > 1, all n >= 3);
   half-lines of the undamped side are in scope where the moment is finite (power-law tail rule). In the truncated sub-check
   (which isolates the clipping and leaves the base formula to `value`) a NaN / refusal on either side is counted.
 
-Not covered / outside the alphabet: a > b; a query that a truncation ending AT the origin
-  clamps to [0, 0] while |x|^n nu is not integrable at 0 (the base route returns NaN / inf there; counted
-  `truncated_tie_at_origin_out_of_scope`); [e, e] with e infinite; intervals on which the n-th
+Not covered / outside the alphabet: a > b; [e, e] with e infinite; intervals on which the n-th
   moment diverges (at 0 or in a power-law tail); odd n sign on straddling intervals; parameter values and end points off the
   lattice; n > 5 except 8 / 12 on directly constructed models; one-element arrays / lists as end points of the measure routes
   and 0-d arrays for `mass` (rejected by the unchanged tree: TypeError in scipy quad, IndexError); float32 end points (not the
@@ -165,7 +181,7 @@ RULE = (
     "complete product (models x construction histories) x n x routes x all pairs a<b of 15 end points x truncation menu "
     "(single and nested truncations, in place and copy-then-truncate, the truncation interval in every argument form; plus all "
     "triples for additivity, plus every argument form of the end points on every route against the usual form, plus the "
-    "degenerate intervals, plus the helper integral for all alpha x n x pairs, fresh and interleaved with other arguments and "
+    "degenerate intervals - [0, 0] in every written form for every model and n -, plus the helper integral for all alpha x n x pairs, fresh and interleaved with other arguments and "
     "in every argument form); models = menu M1 + edge, wide-jump and boundary-parameter models; a case (model, history, n) is "
     "non-trivial when at least one library value was compared with the quadrature of the model's own density; distinct = "
     "distinct case dict"
@@ -193,10 +209,16 @@ ENDS = {  # "std" = the eleven points of DESIGN.md; "wide" (used by both tiers) 
 }
 TRUNCS = [(-0.5, 0.7), (-2.0, 1.0), (0.1, 0.4)]
 TRUNCS_THOROUGH = TRUNCS + [(-0.3, 2.0), (-INF, 0.3)]
+# one-sided truncations ending AT the origin (positive jumps only / negative jumps only): every query of the other side is
+# clamped to the empty interval [0, 0], whose mass / moments are 0 whatever the activity of the measure
+ONE_SIDED = [(0.0, 0.7), (-0.5, 0.0)]
+ONE_SIDED_THOROUGH = ONE_SIDED + [(0.0, INF), (-INF, 0.0), (-0.0, 2.0)]
 # truncations applied one after the other (truncate_levy_measure on an already truncated model): inner inside outer,
 # partial overlap, disjoint (empty intersection)
 NESTED = [[(-2.0, 1.0), (-0.5, 0.7)], [(-0.5, 0.7), (0.1, 2.0)], [(0.1, 0.4), (-2.0, -0.5)]]
 NESTED_THOROUGH = NESTED + [[(-0.5, 0.7), (-2.0, 1.0)], [(-INF, 0.3), (-0.3, 2.0)]]
+NESTED_ONE_SIDED = [[(-2.0, 1.0), (0.0, 0.7)]]  # two-sided, then cut at the origin
+NESTED_ONE_SIDED_THOROUGH = NESTED_ONE_SIDED + [[(-0.5, 0.0), (-2.0, 1.0)], [(0.0, 0.7), (-0.5, 0.0)]]  # the last: {0}
 # construction histories of the model under test ("via"); "direct" = freshly constructed
 VIAS = ["reinit", "calib", "after-other", "deepcopy"]
 # further histories, applied to the Levy (non-exponential) specs in quick and to every spec in thorough:
@@ -355,10 +377,18 @@ def cases(tier):
         tforms_short = tforms_full[:4]
     # directly constructed models: every truncation and every nested pair in place, plus (copy-then-truncate) the first
     # truncation and the first two nested pairs; models reached through a history: one of each kind
-    full = menu(truncs, nested, [[truncs[0]], nested[0], nested[1]] if not thorough else [[t] for t in truncs] + nested, tforms_full)
-    short = (menu(truncs[:1], nested[1:2], [[truncs[0]]], tforms_short) if not thorough
-             else menu(truncs[:3], nested[:3], [[truncs[0]], nested[1]], tforms_short))
-    for spec in variants:
+    # one-sided truncations ending at the origin: directly constructed models get both sides in place, one nested and one by
+    # copy; models reached through a history one side in place (thorough: both sides, one nested, one by copy)
+    one = ONE_SIDED_THOROUGH if thorough else ONE_SIDED
+    none = NESTED_ONE_SIDED_THOROUGH if thorough else NESTED_ONE_SIDED
+    full = menu(truncs + one, nested + none,
+                ([[truncs[0]], nested[0], nested[1]] if not thorough else [[t] for t in truncs] + nested) + [[one[1]]] + ([[one[0]]] + none if thorough else []),
+                tforms_full)
+    # (quick: the side alternates along the list of variants)
+    shorts = ([menu(truncs[:1] + [one[k]], nested[1:2], [[truncs[0]]], tforms_short) for k in (0, 1)] if not thorough
+              else [menu(truncs[:3] + one[:2], nested[:3] + none[:1], [[truncs[0]], nested[1], [one[1]]], tforms_short)] * 2)
+    for pos, spec in enumerate(variants):
+        short = shorts[pos % 2]
         ns = list(spec.get("ns", NS))
         if not spec.get("via") and "ns" not in spec and not spec.get("boundary") and (thorough or not spec.get("exp")):
             ns += NS_MODEL_LARGE if thorough else NS_MODEL_LARGE[:1]
@@ -491,6 +521,24 @@ def _same_items(x, y):
 
 def _forms_of(route):
     return FORMS_MASS if route == "mass" else (FORMS_MASS_ARRAY if route == "mass-array" else FORMS_NU)
+
+
+def _zero_ties(route):
+    """the empty interval [0, 0] written in every other legal way of the route: (value, a, b, form). The two end points are
+    always two objects; 0.0 and -0.0 are equal numbers."""
+    import numpy as np
+
+    nz = lambda: float("-0.0")  # noqa: E731  (a new object each time)
+    if route == "mass-array":
+        out = [(np.array([nz()]), np.array([nz()]), "negzero"), (np.array([nz()]), np.array([0.0]), "negzero-zero"),
+               ([0.0], [0.0], "list"), ((0.0,), (nz(),), "tuple"), (np.array([0]), np.array([0]), "int-array")]
+    else:
+        out = [(nz(), nz(), "negzero"), (nz(), float("0.0"), "negzero-zero"), (float("0.0"), nz(), "zero-negzero"),
+               (int("0"), int("0"), "int"), (0, float("0.0"), "int-float"), (np.int64(0), np.int64(0), "npint"),
+               (np.float64(0.0), np.float64(-0.0), "npfloat"), (float("0.0"), nz(), "kw")]
+        if route != "mass":
+            out += [(np.array(0.0), np.array(-0.0), "0d")]
+    return [(0.0, a, b, form) for a, b, form in out]
 
 
 def _call(model, nu, route, a, b, n, form=None):
@@ -901,26 +949,33 @@ def _sub_model(sh, case):
         if fmode:
             _argforms(sh, model, nu, route, n, vals, E, PAIRS, fmode, scale, f"{fam}:{route}", label, lambda a, b: suffix(a, b))
             # ---- exact ties: the degenerate interval [e, e] carries no mass -------------------------------------------------
-            for e in E:
-                if not math.isfinite(e) or (e == 0.0 and not (fin[-1] and fin[+1])):
-                    continue
-                kind, v, used_quad = _call(model, nu, route, e, e, n)
+            # [0, 0] in EVERY model and for every n, whatever the activity: an empty interval carries no mass (it is what a
+            # one-sided truncation (0, r) / (l, 0) turns every query of the other side into), in every way of writing it
+            # (the second end point is an equal number that is another object: `a is b` is not `a == b`)
+            for e, ea, eb, zform in [(e, e, float(repr(e)), "") for e in E if math.isfinite(e)] + _zero_ties(route):
+                at0 = e == 0.0
+                kind, v, used_quad = _call(model, nu, route, ea, eb, n, form=zform or None)
+                e2 = e
                 sh.count("evaluations")
-                if e == 0.0:
-                    sh.cls(f"tie-at-origin:{fam}:{route}")
+                if at0:
+                    sh.cls(f"tie-at-origin:{fam}:{route}:{'integrable' if (fin[-1] and fin[+1]) else 'not-integrable-at-0'}")
+                    sh.cls(f"tie-at-origin:form={zform or 'float'}")
                 if boundary and meets(e, e) and kind in _DEGENERATE_RAISES:
                     sh.count("boundary_route_degenerate")
                     continue
-                if boundary and meets(e, e) and kind == "ok" and math.isnan(v):
+                if boundary and meets(e, e) and kind == "ok" and math.isnan(v) and not (at0 and not (fin[-1] and fin[+1])):
+                    # (at the origin of a measure that is not integrable there the NaN has nothing to do with the missing
+                    # damping: the ordinary key below, the same as for the damped measures)
                     sh.violation(f"C09:value:cgmy:{route}:nan-on-an-undamped-side:{und}:{fam[5:]}:bounded{vsfx}",
                                  f"{label}: {route}({e}, {e}) = nan; the integral over a point is 0; no exponential damping on a "
                                  f"side ({und})", {"a": e, "b": e, "n": n, "route": route})
                     continue
                 if kind != "ok" or not (abs(v) <= _tol(0.0, scale, used_quad)):
                     fc = kind if kind != "ok" else _failure_class(v, 0.0, 0.0)
-                    sh.violation(f"C09:value:{fam}:{route}:degenerate-interval:{fc}:n={n}:{'at0' if e == 0 else 'away-from-0'}{vsfx}",
-                                 f"{label}: {route}({e}, {e}) {'= %r' % v if kind == 'ok' else kind}; the integral over a point is 0",
-                                 {"a": e, "b": e, "n": n, "route": route, "library": v})
+                    sh.violation(f"C09:value:{fam}:{route}:degenerate-interval:{fc}:n={n}:{'at0' if at0 else 'away-from-0'}{vsfx}",
+                                 f"{label}: {route}({ea!r}, {eb!r}) {'= %r' % v if kind == 'ok' else kind}"
+                                 f"{' (end points as %s)' % zform if zform else ''}; the integral over a point is 0",
+                                 {"a": float(e), "b": float(e2), "n": n, "route": route, "library": v, "form": zform or "float"})
 
         # ---- additivity on all triples (library values only) -----------------------------------------------------------
         for i, j, k in itertools.combinations(range(len(E)), 3):
@@ -1125,23 +1180,29 @@ def _truncated(sh, spec, base_model, base_cache, fam, label, n, Ts, mode, fin, s
             if aa < bb and not finite_on(aa, bb):
                 sh.count("truncated_pairs_out_of_scope")
                 continue
-            if aa >= bb and not (fin[-1] and fin[+1]) and any(p == 0.0 for p in ([l if b <= l else r] if len(Ts) == 1 else ends)):
-                # the query is clamped to the point interval AT the origin, where |x|^n nu is not integrable: the library
-                # evaluates the base route on [0, 0] (NaN / inf for the infinite-activity models); a tie at the singularity,
-                # recorded, not judged (see `ties`)
-                sh.count("truncated_tie_at_origin_out_of_scope")
-                continue
             sh.cls(f"truncated:{rel}")
             kind, v, q1 = _call(tm, tnu, route, a, b, n)
             sh.count("evaluations")
             if aa >= bb:
+                # empty intersection: 0 whatever the activity of the measure, also when the query is clamped to the point
+                # interval AT the origin of an infinite-activity measure (a one-sided truncation (0, r) / (l, 0) queried on
+                # the other side: the jump intensity mass(-inf, -h/2) + mass(h/2, inf) of a chain with positive jumps only)
                 exp_kind, expected, q2 = "ok", 0.0, False
+                pts = [l if b <= l else r] if len(Ts) == 1 else ends
+                if any(p == 0.0 for p in pts):
+                    sh.cls(f"truncated:empty-intersection-clamped-to-the-origin:{'integrable' if (fin[-1] and fin[+1]) else 'not-integrable-at-0'}")
                 if kind != "ok":
                     # does the base route raise on the degenerate interval the clipping maps to? then it is the base
-                    # formula's failure (reported by `value`), not the clipping's
-                    pts = [l if b <= l else r] if len(Ts) == 1 else ends
-                    if any(_call(base_model, base, route, p, p, n)[0] == kind for p in pts):
+                    # formula's failure (reported by `value`, ties), not the clipping's
+                    if any(_call(base_model, base, route, p, float(repr(p)), n)[0] == kind for p in pts):
                         sh.count("truncated_base_route_raises_too")
+                        continue
+                elif not math.isfinite(v) and any(p == 0.0 for p in pts):
+                    # NaN / inf: the same if the base route answers [0, 0] like this (judged by `ties` on the base measure,
+                    # one key per family and route instead of one per truncation and relation)
+                    bk, bv, _ = _call(base_model, base, route, 0.0, float("0.0"), n)
+                    if bk == "ok" and repr(bv) == repr(v):
+                        sh.count("truncated_base_route_not_finite_at_origin_too")
                         continue
             else:
                 if (route, aa, bb) not in base_cache:  # one base evaluation per route and intersection in a case
@@ -1307,6 +1368,18 @@ def _sub_tools(sh, case):
                          f"integral_xn_exp_minus_x(n={n}, a={a}, b={b}, alpha={alpha}) = {v!r} but the integral of "
                          f"x^{n} exp(-{alpha}|x|) over [{a}, {b}] is {r!r}",
                          {"n": n, "a": a, "b": b, "alpha": alpha, "library": v, "reference": r})
+    # exact ties: the degenerate interval [e, e] (two objects), e finite; 0.0 also written -0.0
+    for ea, eb in [(e, float(repr(e))) for e in E if math.isfinite(e)] + [(float("-0.0"), float("-0.0")), (float("-0.0"), 0.0)]:
+        sh.count("evaluations")
+        try:
+            v = float(integral_xn_exp_minus_x(n=n, a=ea, b=eb, alpha=alpha))
+            fc = None if v == 0.0 else _failure_class(v, 0.0, 0.0)
+        except Exception as e:
+            v, fc = None, f"raises-{type(e).__name__}"
+        if fc:
+            sh.violation(f"C09:tools:integral_xn_exp_minus_x:degenerate-interval:{fc}:{ncls}:{'at0' if ea == 0 else 'away-from-0'}{hsfx}",
+                         f"integral_xn_exp_minus_x(n={n}, a={ea!r}, b={eb!r}, alpha={alpha}) {'= %r' % v if v is not None else fc}; "
+                         f"the integral over a point is 0", {"n": n, "a": ea, "b": eb, "alpha": alpha, "library": v})
     if case.get("forms"):
         _tools_forms(sh, integral_xn_exp_minus_x, n, alpha, E, PAIRS, vals, scale, ncls)
     sh.outcome(("tools", n, alpha, case.get("hist", "fresh"), [round(v, 12) for v in list(vals.values())[:6]]))
